@@ -695,6 +695,40 @@ pub fn run_c07(a: &Args, shared: &SharedReport) {
         r.rule = "(i) every network content within the bound per kind: send/len/iter_all/iter_deliverable vs the reference multiset, and every deliver/drop step through next_state; (ii) every path to the depth bound of the zoo systems per kind x lossiness with a ghost ledger per envelope; non-trivial = network holds >= 2 copies / path has >= 2 steps".into();
         r.bounds = json!({"network_contents": "<=3 envelopes from a 5-envelope universe (views and steps)", "trace_depth": if th {12} else {10}, "kinds": ["ordered","nondup","dup"], "lossy": [true,false]});
     }
+    // (0) a network chosen by name has the semantics of that name
+    if a.shard == 0 {
+        let mut r = shared.lock().unwrap();
+        for name in Network::<u8>::names() {
+            r.evaluations += 1;
+            r.traces += 1;
+            r.nontrivial += 1;
+            let parsed: Result<Network<u8>, _> = name.parse();
+            let rv = json!({"engine": "e3net", "name": name});
+            match parsed {
+                Err(err) => r.violation("e3:c07-name-not-parsed", format!("Network::names() lists {name:?} but parsing it fails: {err}"), rv),
+                Ok(n0) => {
+                    // the same envelope twice, then another message on the same flow (sent by a start handler)
+                    let sender = Tab::new(vec![((ANY, Ev::Start), Output { st: StOp::Set(0), cmds: vec![Cmd::Send(1, 1), Cmd::Send(1, 1), Cmd::Send(1, 2)] })]);
+                    let sys: Sys = ActorModel::new(HistMode::Off, Vec::new()).actors(vec![sender, Tab::default()]).init_network(n0.clone());
+                    let n = sys.init_states().remove(0).network;
+                    let del: Vec<u8> = sorted(&n.iter_deliverable().map(|x| *x.msg).collect::<Vec<_>>());
+                    let (want_len, want_del): (usize, Vec<u8>) = match name {
+                        "ordered" => (3, vec![1]),
+                        "unordered_duplicating" => (2, vec![1, 2]),
+                        "unordered_nonduplicating" => (3, vec![1, 2]),
+                        _ => (n.len(), del.clone()),
+                    };
+                    if n.len() != want_len || del != want_del {
+                        r.violation("e3:c07-name-semantics", format!("the network parsed from {name:?} holds {} copies with deliverable {:?} after sending [1,1,2] on one flow; that name promises {want_len} copies and deliverable {:?}", n.len(), del, want_del), rv);
+                    }
+                }
+            }
+        }
+        if "no_such_network".parse::<Network<u8>>().is_ok() {
+            r.violation("e3:c07-name-not-parsed", "an unknown network name was accepted".into(), json!({"engine": "e3net"}));
+        }
+        drop(r);
+    }
     // (i) views on every constructible network
     if a.shard == 0 {
         for kind in [NetKind::Ordered, NetKind::NonDup, NetKind::Dup] {
